@@ -11,7 +11,7 @@ def run(tier):
     feats = ("spawn", "spawn", "join", "yield", "atomic", "park", "park", "mutex", "condvar", "condvar", "barrier", "barrier", "once", "once", "rand")
     res = run_prog_check("C05", PROPS, tier, ["c03", "objects:C03:C04", "sync2:C05"], features=feats, n_quick=3000, n_thorough=60000, rule=RULE,
                          focus=["park", "condvar", "barrier", "park", "condvar", ("spawn", "join", "once", "yield", "atomic")],
-                         focus_n=(2500, 50000))
+                         focus_n=(2500, 50000), exhaustive=["condvar", "park", "barrier", "condvar"], exh_n=(60, 600))
     if isinstance(res, int):
         return res
     ctx, cases, mo, io = res
